@@ -3,6 +3,7 @@ import gens as G
 import pyimpl as P
 from oracle_util import *  # noqa
 from protocol import from_real, pm
+import h9_util as U
 
 ID = "C17"
 LEAN_MODULE = ["SCoda.Props.C17", "SCoda.Props.Notes", "SCoda.Props.NotesB", "SCoda.Props.WrapTie", "SCoda.Props.AbsTie2", "SCoda.Props.SortTie", "SCoda.Props.AbsTie2G"]
@@ -52,6 +53,9 @@ RULE = ("base well-formed sequences (<=6 notes, signatures) paired with: themsel
         "signature value, signature tick) x all 16 flag sets; with no flag set every verdict is also taken through == / != of Sequence, "
         "AbsoluteSequence and RelativeSequence and against objects that are no sequences; two signatures of a kind on one tick (D27's class) "
         "and the channel flag on multi-channel pairs (same events: equal; another attribute differs: unequal) are drawn; "
+        "HISTORIES of one pair of live objects (seed round 9): compare, change ONE attribute of one message of B in place (Sequence.messages_abs() or "
+        "assignment on the messages of B.abs: pitch, onset, duration, velocity, channel, signature value / tick), compare again under all flag sets in "
+        "both directions — and the converse (unequal, edited back to equal) — each verdict judged against the plain data as it is at that step; "
         "non-trivial = the pair differs in exactly one attribute")
 ASSUMPTIONS = ["models: SCoda.equalsAbs + SCoda.interleaved, tied by translation (AbsTie2.equalsAbs_eq / interleaved_eq, WrapTie.equals_eq / eqDunder_eq, SortTie) and by correspondence"]
 FLAGSETS = [(a, b, c, d) for a in (False, True) for b in (False, True) for c in (False, True) for d in (False, True)]
@@ -87,6 +91,25 @@ def content(notes, sigs, flags):
     s = sorted((k, t, tuple(v) if isinstance(v, (list, tuple)) else v) for (k, t, v) in sigs
                if not (k == "ts" and its) and not (k == "ks" and iks))
     return (str(n), str(s))
+
+
+def expected_verdict(na, sa, nb, sb, flags):
+    """True / False / None (the text leaves it open) from the plain data only — see the comment in o_equals"""
+    single = len({n[0] for n in na}) <= 1 and len({n[0] for n in nb}) <= 1
+    exp = content(na, sa, flags) == content(nb, sb, flags)
+    if flags[0] and not single:
+        strict = content(na, sa, (False,) + flags[1:]) == content(nb, sb, (False,) + flags[1:])
+        if strict:
+            exp = True
+        elif not exp:
+            exp = False
+        else:
+            exp = None
+    # a signature that repeats the value in force (as entered) is no musical difference and normalisation drops it: such pairs are
+    # judged only in the direction "same events compare equal"
+    if exp is False and (redundant_signature(sa) or redundant_signature(sb)):
+        exp = None
+    return exp
 
 
 def o_equals(inp):
@@ -134,20 +157,7 @@ def o_equals(inp):
     #    the comparison fail ("each ignore flag relaxes only its own attribute"): pairs whose contents differ even with the channel
     #    erased must compare unequal.  Only the pairs in between (equal once the channels are erased, but not the same events) are
     #    left open by the text, and only those are not judged.
-    single = len({n[0] for n in na}) <= 1 and len({n[0] for n in nb}) <= 1
-    exp = content(na, sa, flags) == content(nb, sb, flags)
-    if flags[0] and not single:
-        strict = content(na, sa, (False,) + flags[1:]) == content(nb, sb, (False,) + flags[1:])
-        if strict:
-            exp = True
-        elif not exp:
-            exp = False
-        else:
-            exp = None
-    # a signature that repeats the value in force (as entered) is no musical difference and normalisation drops it: such pairs are
-    # judged only in the direction "same events compare equal"
-    if exp is False and (redundant_signature(sa) or redundant_signature(sb)):
-        exp = None
+    exp = expected_verdict(na, sa, nb, sb, flags)
     if exp is None:
         fails.append(("~unjudged:text-leaves-it-open", ""))
     elif ab != exp:
@@ -186,6 +196,68 @@ def o_equals(inp):
         for name, got in foreign:
             if got is not False:
                 fails.append(("eq-foreign", f"{name} is {got!r} (not a sequence of that kind)"))
+    return fails
+
+
+def o_equals_history(inp):
+    """HISTORY of one pair of live objects (seed round 9): A is built from plain data, B is A's copy (or built from its own data); then steps:
+    {"compare": [flag sets]} compares A and B in both directions under each flag set (with no flag also through ==), {"edit": {...}, "via": ...}
+    changes ONE attribute of one message of B in place — through Sequence.messages_abs() or by assignment on the messages of B.abs — and,
+    identically, the plain data.  Every verdict is judged against the plain data AS IT IS at that step (expected_verdict: never against what
+    equals said before, nor against a rebuilt object's answer): a comparison made earlier must not be remembered past an edit."""
+    na, sa = U.norm_side(inp["a"])
+    if inp.get("b") is not None:
+        nb, sb = U.norm_side(inp["b"])
+    else:
+        nb, sb = list(na), list(sa)
+    if not (U.plain_ok(na, sa) and U.plain_ok(nb, sb)):
+        return [("~skip:history-data-not-well-formed", "")]
+    A, _ = build(na, sa)
+    if inp.get("b") is None and inp.get("how", "copy") == "copy":
+        B = A.copy()
+    else:
+        B, _ = build(nb, sb)
+    fails = []
+    n_edits = 0
+    for si, step in enumerate(inp.get("steps") or []):
+        if not isinstance(step, dict):
+            continue
+        if "edit" in step:
+            e = step["edit"]
+            new = U.apply_edit_plain(nb, sb, e) if isinstance(e, dict) else None
+            if new is None:
+                return fails + [("~skip:edit-does-not-apply", "")]
+            if not U.live_edit(B, step.get("via", "messages_abs"), nb, sb, e):
+                raise RuntimeError(f"harness: the messages of edit {e} were not found in B")
+            nb, sb = new
+            n_edits += 1
+            # the objects hold what the plain data says (read off the message objects, no library logic involved)
+            import collections
+            want = collections.Counter(build(nb, sb)[1])
+            have = collections.Counter(from_real(m) for m in B.abs._messages)
+            if want != have:
+                raise RuntimeError(f"harness: after edit {e} B holds {sorted(have.items(), key=repr)}, the plain data is {sorted(want.items(), key=repr)}")
+            continue
+        for flags in step.get("compare") or []:
+            flags = tuple(bool(x) for x in flags)
+            if len(flags) != 4:
+                continue
+            kw = dict(ignore_channel=flags[0], ignore_time_signature=flags[1], ignore_key_signature=flags[2], ignore_velocity=flags[3])
+            exp = expected_verdict(na, sa, nb, sb, flags)
+            try:
+                got = [("A.equals(B)", A.equals(B, **kw)), ("B.equals(A)", B.equals(A, **kw)), ("A.abs.equals(B.abs)", A.abs.equals(B.abs, **kw))]
+                if flags == (False, False, False, False):
+                    got += [("A == B", A == B), ("B == A", B == A), ("not (A != B)", not (A != B)), ("B.abs == A.abs", B.abs == A.abs)]
+            except Exception as ex:
+                return fails + [("raises", f"step {si}: {type(ex).__name__}: {ex}")]
+            if exp is None:
+                fails.append(("~unjudged:text-leaves-it-open", ""))
+                continue
+            for name, g in got:
+                if g is not exp:
+                    fails.append(("history-verdict", f"step {si}, after {n_edits} in-place edit(s) of B: {name} is {g!r} under flags {flags}, expected {exp} "
+                                                     f"(the contents {'are equal' if exp else 'differ'}: A notes={na} sigs={sa}; B notes={nb} sigs={sb})"))
+                    break
     return fails
 
 
@@ -279,6 +351,7 @@ D27_EXAMPLE = {"a": {"notes": [], "sigs": [("ts", 0, (4, 4)), ("ts", 0, (3, 4))]
 def setup(ctx):
     ctx.oracle("equals", o_equals)
     ctx.oracle("equals_raw", o_equals_raw)
+    ctx.oracle("equals_history", o_equals_history)
 
     def kf_d27(f):
         # OUTCOME: the comparison answered "unequal" where the same events were expected to compare equal (never the other way round),
@@ -349,8 +422,51 @@ def gen_tied_channels(rng):
     return wf_filter(notes), sigs
 
 
+def gen_histories(ctx, rng, notes, sigs):
+    """in-place edit histories of one base (seed round 9); every kind of edit the base admits in the thorough tier, some of them in the quick one"""
+    notes = [n for n in notes if n[3] >= 1]
+    if not U.plain_ok(notes, sigs):
+        ctx.count("history:base-not-used(two signatures of a kind on one tick / empty note)")
+        return
+    kinds = list(U.EDIT_KINDS)
+    if not ctx.thorough:
+        rng.shuffle(kinds)
+        kinds = kinds[:4]
+    for what in kinds:
+        e = U.gen_edit(rng, notes, sigs, what)
+        if e is None:
+            continue
+        via = rng.choice(["messages_abs", "messages_abs", "direct"])
+        first = rng.choice([[FLAGSETS[0]], [rng.choice(FLAGSETS)], rng.sample(FLAGSETS, 4), FLAGSETS])
+        second = FLAGSETS if (ctx.thorough or rng.random() < 0.5) else list({FLAGSETS[0], rng.choice(FLAGSETS)} | set(first))
+        first, second = [list(f) for f in first], [list(f) for f in second]
+        a = {"notes": notes, "sigs": sigs}
+        pattern = rng.choice(["copy,compare,edit,compare", "rebuild,compare,edit,compare", "unequal,compare,edit-back,compare", "copy,compare,edit,compare,edit-back,compare"])
+        if pattern.startswith("unequal"):
+            nb, sb = U.apply_edit_plain(notes, sigs, e)
+            inp = {"a": a, "b": {"notes": nb, "sigs": sb}, "steps": [{"compare": first}, {"edit": U.inverse_edit(notes, sigs, e), "via": via}, {"compare": second}]}
+        else:
+            steps = [{"compare": first}, {"edit": e, "via": via}, {"compare": second}]
+            if pattern.endswith("edit-back,compare"):
+                steps += [{"edit": U.inverse_edit(notes, sigs, e), "via": rng.choice(["messages_abs", "direct"])}, {"compare": second}]
+            inp = {"a": a, "how": "copy" if pattern.startswith("copy") else "rebuild", "steps": steps}
+        inp["kind"] = f"history {what}: {pattern}"
+        ctx.count("history:" + what)
+        ctx.count("history-pattern:" + pattern)
+        ctx.count("history-via:" + via)
+        ctx.case(("history", notes, sigs, e, via, first, second, pattern), True)
+        ctx.check("equals_history", inp)
+
+
 def generate(ctx):
     rng = ctx.rng
+
+    def corr(name, res):
+        # per-case data (audit: the thorough tier held > 2 GB): the request is kept once, as the line the driver is sent, not a second time as a word list
+        ctx.corr(name, res)
+        ctx.corr_cases[-1] = (name, [ctx.driver.requests[-1]]) + tuple(ctx.corr_cases[-1][2:])
+
+    seen = [0, False]
     ctx.check("equals", D27_EXAMPLE)            # the recorded instance of the known finding
     ctx.check("equals_raw", D30_EXAMPLE)        # the recorded instance of a repaired defect: reported again if it ever returns
     for i in range(ctx.n(150, 3000)):
@@ -362,7 +478,9 @@ def generate(ctx):
             ctx.count("raw:orphan-offs-only")
         ctx.count("raw")
         ctx.check("equals_raw", {"a": a, "b": b, "flags": list(rng.choice(FLAGSETS))})
-    for i in range(ctx.n(60, 1500)):
+    # the pair oracle below is the expensive kind (every perturbation x 16 flag sets x two builds x the driver): 400 bases in the thorough tier
+    # (was 1500: 836 s and > 2.3 GB, audit round 4); every kind of base / perturbation / flag set is still drawn, see `distribution`
+    for i in range(ctx.n(60, 400)):
         notes = wf_filter(G.gen_notes(rng, n_notes=rng.randint(0, 6), channels=rng.choice([(0,), (0,), (0, 1)]),
                                       pitches=[60, 62, 64], max_tick=100, max_dur=30, short_bias=0.1))
         sigs = []
@@ -391,6 +509,7 @@ def generate(ctx):
             if kind not in ("identical",) and not wf_filter(nb) == nb:
                 continue
             flagsets = FLAGSETS if ctx.thorough else [FLAGSETS[0], rng.choice(FLAGSETS), rng.choice(FLAGSETS)]
+            cached = None
             for flags in flagsets:
                 order = None
                 via_rel = False
@@ -408,9 +527,19 @@ def generate(ctx):
                 if swapped_tie(inp):
                     ctx.count("same-tick-signatures-entered-in-another-order(D27 class)")
                 ctx.check("equals", inp)
-                A, _ = build(notes, sigs)
-                B, _ = build(nb, sb, order)
-                a = [from_real(x) for x in A.abs._messages]
-                b = [from_real(x) for x in B.abs._messages]
-                ctx.corr("equals", P.op_equals(flags, a, b))
+                if order is not None or cached is None:
+                    A, _ = build(notes, sigs)
+                    B, _ = build(nb, sb, order)
+                    cached = ([from_real(x) for x in A.abs._messages], [from_real(x) for x in B.abs._messages])
+                corr("equals", P.op_equals(flags, cached[0], cached[1]))
+        # the history the pair oracle re-enacts is the input just before it; nothing older is ever read back unless a failure needs the whole run
+        hist = ctx.__dict__.get("_history", {}).get("equals")
+        while seen[0] < len(ctx.failures):
+            f = ctx.failures[seen[0]]
+            seen[0] += 1
+            if f["oracle"] == "equals" and not ctx.kf_predicates["D27"](f):
+                seen[1] = True          # a failure that is no known finding: its report may need the whole history, keep it
+        if hist is not None and len(hist) > 400 and not seen[1]:
+            del hist[:-50]
+        gen_histories(ctx, rng, notes, sigs)
         ctx.sample({"notes": notes, "sigs": sigs})
